@@ -20,7 +20,13 @@ import (
 
 type Rand struct{ s uint64 }
 
-func NewRand(seed uint64) *Rand { return &Rand{s: seed*0x9E3779B97F4A7C15 + 0x1234567} }
+func NewRand(seed uint64) *Rand {
+	// scramble the seed so that consecutive seeds give unrelated streams
+	z := (seed ^ 0x5851F42D4C957F2D) * 0xBF58476D1CE4E5B9
+	z = (z ^ (z >> 29)) * 0x94D049BB133111EB
+	z ^= z >> 32
+	return &Rand{s: z}
+}
 func (r *Rand) U64() uint64 {
 	r.s += 0x9E3779B97F4A7C15
 	z := r.s
@@ -62,7 +68,8 @@ type Oracle struct {
 }
 
 func StartOracle(path string) (*Oracle, error) {
-	c := exec.Command(path)
+	// the extracted list functions recurse deeply on large inputs: lift the stack limit
+	c := exec.Command("/bin/sh", "-c", `ulimit -s unlimited 2>/dev/null || ulimit -s 4000000 2>/dev/null; exec "$0"`, path)
 	in, err := c.StdinPipe()
 	if err != nil {
 		return nil, err
